@@ -198,7 +198,7 @@ def make_scanner(protoset):
     return sc
 
 
-def run_real(mode, protoset, hosts, deliveries):
+def run_real(mode, protoset, hosts, deliveries, identifier=None):
     """deliveries: list of (src_addr_id, bytes) in arrival order.  Returns
     {'responses': [...], 'configs': [...], 'error': str|None, 'services': [...]}"""
     import pyatv
@@ -261,7 +261,7 @@ def run_real(mode, protoset, hosts, deliveries):
             patch(loop, "create_datagram_endpoint", create_datagram_endpoint)
             patch(scan_mod.knock, "knocker", knocker)
         try:
-            return await pyatv.scan(loop, timeout=1, protocol=protocols_of(protoset),
+            return await pyatv.scan(loop, timeout=1, protocol=protocols_of(protoset), identifier=identifier,
                                     hosts=["10.0.0.%d" % h for h in hosts] if mode != "m" else None)
         finally:
             for obj, attr, old in reversed(patches):
@@ -567,16 +567,17 @@ def gen_device(rng, idx, allow_noid=True):
     return dev
 
 
-def svc_records(dev, s, with_ptr=True):
+def svc_records(dev, s, with_ptr=True, with_a=True):
     full = ["svc", s["inst"], s["type"]]
     host = ["host", dev["host"]]
     recs = []
     if with_ptr:
         recs.append(["P", ["typ", s["type"]], dev["ttl"], full])
     recs.append(["S", full, dev["ttl"], s["port"], host])
-    if dev["linklocal"]:
+    if dev["linklocal"] and with_a:
         recs.append(["A", host, dev["ttl"], dev["addr"], True])
-    recs.append(["A", host, dev["ttl"], dev["addr"], False])
+    if with_a:
+        recs.append(["A", host, dev["ttl"], dev["addr"], False])
     if s["props"]:
         recs.append(["T", full, dev["ttl"], s["props"]])
     if dev["info"]:
@@ -598,10 +599,13 @@ def device_datagrams_m(dev, rng, want):
         i = rng.randrange(len(groups) - 1)
         groups[i:i + 2] = [groups[i] + groups[i + 1]]
     out = []
-    for g in groups:
+    # the host's A record need not be repeated in every datagram (it is in at least one)
+    with_a = [rng.chance(0.6) for _ in groups]
+    with_a[rng.randrange(len(groups))] = True
+    for g, wa in zip(groups, with_a):
         recs = []
         for s in g:
-            for r in svc_records(dev, s):
+            for r in svc_records(dev, s, with_a=wa):
                 if r not in recs:
                     recs.append(r)
         out.append(recs)
@@ -630,11 +634,17 @@ def gen_case_u(rng, ndev, protoset=None, short=False):
     dgrams = []
     for dev in devs:
         buckets = [[] for _ in range(nq)]
+        with_a = [rng.chance(0.6) for _ in range(nq)]
+        placed = set()
         for s in dev["services"]:
             for b in rng.sample(range(nq), rng.choice([1, 1, 2]) if nq > 1 else 1):   # query chunks overlap
-                for r in svc_records(dev, s):
+                placed.add(b)
+                for r in svc_records(dev, s, with_a=with_a[b]):
                     if r not in buckets[b]:
                         buckets[b].append(r)
+        if not any(with_a[b] for b in placed):
+            b = sorted(placed)[0]
+            buckets[b].append(["A", ["host", dev["host"]], dev["ttl"], dev["addr"], False])
         if rng.chance(0.3):
             buckets[rng.randrange(nq)] += unrequested_records(dev, rng)
         keep = range(nq - 1) if short and dev is devs[0] else range(nq)
@@ -806,11 +816,41 @@ def known_witness():
     return {"mode": "u", "protoset": [2], "hosts": [1], "enc": "r", "dgrams": dgrams, "absent": [], "consistent": True}
 
 
+KNOWN_SIG_IDENT = "multicast-identifier:early-exit-after-len(queries)-datagrams"
+
+
+def identifier_witness(ctx):
+    """Outside the model (scan *with* identifier): the multicast protocol aborts as soon as a source has sent
+    len(queries) datagrams and the wanted identifier was seen - later datagrams of that device are lost."""
+    dev = {"addr": 1, "host": 1, "ttl": 120, "linklocal": False, "info": None, "name": "Dev1"}
+    svcs = [
+        {"type": T_MRP, "inst": "Dev1", "port": 49152, "props": [("Name", "Dev1"), ("UniqueIdentifier", "MRP-1")]},
+        {"type": T_AIRPLAY, "inst": "Dev1", "port": 7000, "props": [("deviceid", "AA:BB:CC:00:00:01")]},
+        {"type": T_COMPANION, "inst": "Dev1", "port": 7001, "props": [("rpMRtID", "CID-1"), ("rpFl", "0x36782")]},
+        {"type": T_RAOP, "inst": "AABBCC000001@Dev1", "port": 7002, "props": [("tp", "UDP")]},
+        {"type": T_TOUCH, "inst": "DMAP0001_t", "port": 3689, "props": [("CtlN", "Dev1")]},
+    ]
+    desc = {"mode": "m", "protoset": None, "hosts": [], "enc": "r", "absent": [], "consistent": True,
+            "identifier": "MRP-1",
+            "dgrams": [{"src": 1, "tag": i, "recs": svc_records(dev, s)} for i, s in enumerate(svcs)]}
+    c = Case(desc)
+    first, other = [0, 1, 2, 3, 4], [4, 0, 1, 2, 3]
+    snaps = []
+    for o in (first, other):
+        res = run_real("m", None, [], [(1, c.wire[i]) for i in o], identifier="MRP-1")
+        snaps.append(oracle_snapshot(res))
+        ctx.case(["identifier-witness", o], True)
+    if snaps[0] != snaps[1]:
+        ctx.fail(KNOWN_SIG_IDENT, {"desc": desc, "order": other, "reference_order": first},
+                 repr(snaps[1])[:400], repr(snaps[0])[:400],
+                 "scan(identifier=...) returns different services for different arrival orders")
+
+
 def run(ctx, only=None):
     rng = ctx.rng
     full = ctx.scale(5, 6)
     samples = ctx.scale(12, 40)
-    ncases = ctx.scale(4, 14)
+    ncases = ctx.scale(8, 30)
     if only is not None:
         desc, orders = only
         evaluate(ctx, desc, orders, "replay")
@@ -835,11 +875,12 @@ def run(ctx, only=None):
         evaluate(ctx, desc, orders_for(r, n, full, samples, 2), "consistent")
         unrequested_check(ctx, r, desc)
     # 3. contradictory data: correspondence only
-    for i in range(ctx.scale(6, 24)):
+    for i in range(ctx.scale(10, 40)):
         r = rng.fork("x", i)
         desc = gen_case_inconsistent(r, "mu"[i % 2])
         n = len(desc["dgrams"])
         evaluate(ctx, desc, orders_for(r, n, min(full, 4), 8, 1), "inconsistent")
+    identifier_witness(ctx)
     w = known_witness()
     case = Case(w)
     nq = case.nq
@@ -878,7 +919,11 @@ def replay(ctx, failure):
     c = Case(desc)
     snaps = []
     for o in orders:
-        res, _ = c.real(o)
+        if desc.get("identifier"):
+            res = run_real("m", desc.get("protoset"), [], [(desc["dgrams"][i]["src"], c.wire[i]) for i in o],
+                           identifier=desc["identifier"])
+        else:
+            res, _ = c.real(o)
         snaps.append(oracle_snapshot(res))
         if not res["error"]:
             addrs = [str(x.address) for x in res["configs"]]
